@@ -578,3 +578,51 @@ func (p *Prog) FieldOr(pkg, typ, name string, pred func(types.Type) bool) *types
 	}
 	return found
 }
+
+// FieldDeep is FieldOr that also looks one level down: when typ has neither a
+// field called name nor a unique field whose type satisfies pred, the struct
+// types of the same package that typ holds as fields (by value or pointer) are
+// searched for a unique field satisfying pred (state grouped into a helper type).
+func (p *Prog) FieldDeep(pkg, typ, name string, pred func(types.Type) bool) *types.Var {
+	nt := p.Named(pkg, typ)
+	st, ok := nt.Underlying().(*types.Struct)
+	if !ok {
+		Fail("%s.%s is not a struct", pkg, typ)
+	}
+	for i := 0; i < st.NumFields(); i++ {
+		if st.Field(i).Name() == name {
+			return st.Field(i)
+		}
+	}
+	var found []*types.Var
+	for i := 0; i < st.NumFields(); i++ {
+		if pred != nil && pred(st.Field(i).Type()) {
+			found = append(found, st.Field(i))
+		}
+	}
+	if len(found) == 0 && pred != nil {
+		for i := 0; i < st.NumFields(); i++ {
+			t := st.Field(i).Type()
+			if pt, ok := t.Underlying().(*types.Pointer); ok {
+				t = pt.Elem()
+			}
+			in, ok := t.(*types.Named)
+			if !ok || in.Obj().Pkg() != nt.Obj().Pkg() {
+				continue
+			}
+			ist, ok := in.Underlying().(*types.Struct)
+			if !ok {
+				continue
+			}
+			for j := 0; j < ist.NumFields(); j++ {
+				if pred(ist.Field(j).Type()) {
+					found = append(found, ist.Field(j))
+				}
+			}
+		}
+	}
+	if len(found) != 1 {
+		Fail("field %s.%s.%s not found (and no unique field of its type, directly or in a helper struct)", pkg, typ, name)
+	}
+	return found[0]
+}
